@@ -148,12 +148,16 @@ def malformed(ctx):
     from kfac.preconditioner import KFACPreconditioner
     rng = ctx.rng
     for _ in range(ctx.budget(10, 60)):
-        n1, n2 = rng.sample([1, 2, 3, 4], 2)
+        n1, n2 = rng.sample([0, 0, 1, 2, 3, 4], 2)
+        if n1 == n2:
+            n2 = n1 + 1
 
         def mk(n):
-            m = torch.nn.Sequential(*[torch.nn.Linear(2, 2) for _ in range(n)])
+            # (n = 0: a preconditioner that registered no layer at all — everything skipped or frozen)
+            m = torch.nn.Sequential(*([torch.nn.Linear(2, 2) for _ in range(n)] or [torch.nn.Tanh()]))
             p = KFACPreconditioner(m)
-            m(torch.ones(3, 2)).sum().backward()
+            if n:
+                m(torch.ones(3, 2)).sum().backward()
             p.step()
             return p
         p1, p2 = mk(n1), mk(n2)
